@@ -422,7 +422,7 @@ CHECKS["C19"] = {
     "technique": "runtime monitoring against recorded golden vectors (proofs, masks, generator encodings recorded from the pinned tree with pristine merlin) and differential cross-implementation runs with the independent prover/verifier/recovery, byte for byte over Ristretto, incl. challenge sequences observed at the merlin boundary vs the documented transcript layout",
     "design_ref": "DESIGN.md section 4 C19",
     "legs": [{"name": "vectors", "shards": 16}, {"name": "cross", "shards": 16}],
-    "rule": "vector cases: each of the 54 recorded proofs (every bit length x every degree seeded, plus 12 aggregated configurations up to 64x32; quick skips bits*aggregation > 512) verified in three modes, masks compared, "
+    "rule": "vector cases: each of the 62 recorded proofs (every bit length x every degree seeded, 12 aggregated configurations up to 64x32, 8 with degenerate data: identity commitments, seeds 0 and 1, a repeated commitment; quick skips bits*aggregation > 512) verified in three modes, masks compared, "
             "reference verifier and recovery run on it, seeded ones re-proved and A/L/R compared; each of 10 recorded generator tables and the Pedersen set regenerated; cross cases: fresh random instances over the lattice, "
             "reference prover -> library verify + recover, library prover -> reference verifier, seeded A/L/R equality between the two provers; distinct = distinct vectors / instances",
     "require": {"quick": {"recorded_proofs_checked": 48, "recorded_proof_verifications": 120, "recorded_masks_compared": 80, "seeded_reproofs_compared": 40, "generator_sets_compared": 8,
